@@ -16,7 +16,7 @@ import (
 //   * InitClickhousePlanner.Process        (reader/promql/transpiler/init_clickhouse_planner.go): scan bounds
 //   * sql_select.Eq/Neq/Gt/Ge/Lt/Le        (reader/utils/sql_select/condition.go): the SQL operator each renders
 
-func printNode(fset *token.FileSet, n ast.Node) string {
+func promPrintNode(fset *token.FileSet, n ast.Node) string {
 	var b bytes.Buffer
 	printer.Fprint(&b, fset, n)
 	return strings.Join(strings.Fields(b.String()), " ")
@@ -82,7 +82,7 @@ func init() {
 			return "", fmt.Errorf("LabelMatcher.GetOp: expected a switch followed by a return")
 		}
 		sw, ok := fd.Body.List[0].(*ast.SwitchStmt)
-		if !ok || printNode(fset, sw.Tag) != "l.Node.Type" {
+		if !ok || promPrintNode(fset, sw.Tag) != "l.Node.Type" {
 			return "", fmt.Errorf("LabelMatcher.GetOp: expected switch l.Node.Type")
 		}
 		var mtOps [][2]string
@@ -127,16 +127,16 @@ func init() {
 		ast.Inspect(fd.Body, func(n ast.Node) bool {
 			switch x := n.(type) {
 			case *ast.SwitchStmt:
-				if x.Tag != nil && printNode(fset, x.Tag) == "s.Ops[i]" {
+				if x.Tag != nil && promPrintNode(fset, x.Tag) == "s.Ops[i]" {
 					opSw = x
 				}
 			case *ast.AssignStmt:
 				if len(x.Lhs) == 1 {
-					switch printNode(fset, x.Lhs[0]) {
+					switch promPrintNode(fset, x.Lhs[0]) {
 					case "clauses[i]":
-						clauseAssign = printNode(fset, x)
+						clauseAssign = promPrintNode(fset, x)
 					case "fpRequest":
-						fpReq = printNode(fset, x)
+						fpReq = promPrintNode(fset, x)
 					}
 				}
 			}
@@ -167,7 +167,7 @@ func init() {
 				return "", fmt.Errorf("StreamSelectPlanner.Process: case is not a string literal")
 			}
 			as, ok := cc.Body[0].(*ast.AssignStmt)
-			if !ok || len(as.Lhs) != 1 || printNode(fset, as.Lhs[0]) != "valClause" || len(as.Rhs) != 1 {
+			if !ok || len(as.Lhs) != 1 || promPrintNode(fset, as.Lhs[0]) != "valClause" || len(as.Rhs) != 1 {
 				return "", fmt.Errorf("StreamSelectPlanner.Process: case %q does not assign valClause", op)
 			}
 			call, ok := as.Rhs[0].(*ast.CallExpr)
@@ -176,10 +176,10 @@ func init() {
 			}
 			fn, ok := selName(call.Fun, "sql")
 			if !ok || cmp[fn] == "" {
-				return "", fmt.Errorf("StreamSelectPlanner.Process: case %q: unknown comparison %s", op, printNode(fset, call.Fun))
+				return "", fmt.Errorf("StreamSelectPlanner.Process: case %q: unknown comparison %s", op, promPrintNode(fset, call.Fun))
 			}
 			c := clause{op: op, fn: cmp[fn]}
-			lhs, rhs := printNode(fset, call.Args[0]), printNode(fset, call.Args[1])
+			lhs, rhs := promPrintNode(fset, call.Args[0]), promPrintNode(fset, call.Args[1])
 			switch {
 			case lhs == `sql.NewRawObject("val")` && rhs == `sql.NewStringVal(s.Values[i])`:
 			case lhs == `&sqlMatch{ col: sql.NewRawObject("val"), pattern: s.Values[i]}` && strings.HasPrefix(rhs, "sql.NewIntVal(") && strings.HasSuffix(rhs, ")"):
@@ -238,10 +238,10 @@ func init() {
 				return true
 			}
 			fn, ok := selName(call.Fun, "sql")
-			if !ok || cmp[fn] == "" || printNode(fset, call.Args[0]) != `sql.NewRawObject("samples.timestamp_ns")` {
+			if !ok || cmp[fn] == "" || promPrintNode(fset, call.Args[0]) != `sql.NewRawObject("samples.timestamp_ns")` {
 				return true
 			}
-			switch printNode(fset, call.Args[1]) {
+			switch promPrintNode(fset, call.Args[1]) {
 			case "sql.NewIntVal(ctx.From.UnixNano())":
 				lower = cmp[fn]
 			case "sql.NewIntVal(ctx.To.UnixNano())":
@@ -264,16 +264,16 @@ func init() {
 		}
 		var loop *ast.RangeStmt
 		for _, st := range fd.Body.List {
-			if rs, ok := st.(*ast.RangeStmt); ok && printNode(fset, rs.X) == "matchers" {
+			if rs, ok := st.(*ast.RangeStmt); ok && promPrintNode(fset, rs.X) == "matchers" {
 				loop = rs
 			}
 		}
-		if loop == nil || printNode(fset, loop.Value) != "_matcher" {
+		if loop == nil || promPrintNode(fset, loop.Value) != "_matcher" {
 			return "", fmt.Errorf("fingerprintsQuery: loop over matchers not found")
 		}
 		var body []string
 		for _, st := range loop.Body.List {
-			body = append(body, printNode(fset, st))
+			body = append(body, promPrintNode(fset, st))
 		}
 		head := []string{"matcher := parser.LabelMatcher{Node: _matcher}", "labelNames = append(labelNames, matcher.GetLabel())", "ops = append(ops, matcher.GetOp())"}
 		for i, w := range head {
@@ -299,7 +299,7 @@ func init() {
 				if be.Op == token.LOR {
 					return collect(be.X) && collect(be.Y)
 				}
-				if be.Op != token.EQL || printNode(fset, be.X) != "_matcher.Type" {
+				if be.Op != token.EQL || promPrintNode(fset, be.X) != "_matcher.Type" {
 					return false
 				}
 				mt, ok := selName(be.Y, "labels")
@@ -310,10 +310,10 @@ func init() {
 				return true
 			}
 			if !collect(ifs.Cond) {
-				return "", fmt.Errorf("fingerprintsQuery: condition %q not recognised", printNode(fset, ifs.Cond))
+				return "", fmt.Errorf("fingerprintsQuery: condition %q not recognised", promPrintNode(fset, ifs.Cond))
 			}
 			as, ok := ifs.Body.List[0].(*ast.AssignStmt)
-			if !ok || len(as.Lhs) != 1 || printNode(fset, as.Lhs[0]) != "val" || as.Tok != token.ASSIGN {
+			if !ok || len(as.Lhs) != 1 || promPrintNode(fset, as.Lhs[0]) != "val" || as.Tok != token.ASSIGN {
 				return "", fmt.Errorf("fingerprintsQuery: value rewrite not recognised")
 			}
 			outer, ok := as.Rhs[0].(*ast.BinaryExpr)
@@ -321,7 +321,7 @@ func init() {
 				return "", fmt.Errorf("fingerprintsQuery: value rewrite not recognised")
 			}
 			inner, ok := outer.X.(*ast.BinaryExpr)
-			if !ok || inner.Op != token.ADD || printNode(fset, inner.Y) != "val" {
+			if !ok || inner.Op != token.ADD || promPrintNode(fset, inner.Y) != "val" {
 				return "", fmt.Errorf("fingerprintsQuery: value rewrite not recognised")
 			}
 			var ok1, ok2 bool
